@@ -103,7 +103,7 @@ def extract(repo=None, config="dev", crates=("stun_types", "stun_proto"), packag
                 shutil.rmtree(tmpc, ignore_errors=True)
             # keep the cache small
             ents = sorted((os.path.getmtime(os.path.join(CACHE, e)), e) for e in os.listdir(CACHE))
-            for _, e in ents[:-48]:
+            for _, e in ents[:-150]:
                 shutil.rmtree(os.path.join(CACHE, e), ignore_errors=True)
     finally:
         shutil.rmtree(tdir, ignore_errors=True)
